@@ -197,3 +197,74 @@ func init() {
 }
 
 const modPathConst = "github.com/bluenviron/mediamtx"
+
+// deepCopy is the contract of conf.(Path|Conf).Clone (a reflection program in the real code):
+// a structurally equal value sharing no memory with the original.
+func deepCopy(v Value, seen map[*Value]*Value) Value {
+	switch x := v.(type) {
+	case Struct:
+		r := make(Struct, len(x))
+		for i := range x {
+			r[i] = deepCopy(x[i], seen)
+		}
+		return r
+	case Array:
+		r := make(Array, len(x))
+		for i := range x {
+			r[i] = deepCopy(x[i], seen)
+		}
+		return r
+	case []Value:
+		if x == nil {
+			return x
+		}
+		r := make([]Value, len(x), cap(x))
+		for i := range x {
+			r[i] = deepCopy(x[i], seen)
+		}
+		return r
+	case *Value:
+		if x == nil {
+			return x
+		}
+		if c, ok := seen[x]; ok {
+			return c
+		}
+		c := new(Value)
+		seen[x] = c
+		*c = deepCopy(*x, seen)
+		return c
+	case *Map:
+		if x == nil {
+			return x
+		}
+		r := &Map{KT: x.KT}
+		for i := range x.Keys {
+			r.Keys = append(r.Keys, deepCopy(x.Keys[i], seen))
+			r.Vals = append(r.Vals, deepCopy(x.Vals[i], seen))
+		}
+		if x.fast != nil {
+			r.fast = map[string]int{}
+			for k, i := range x.fast {
+				r.fast[k] = i
+			}
+		}
+		return r
+	case Iface:
+		return Iface{T: x.T, V: deepCopy(x.V, seen)}
+	}
+	return v
+}
+
+func init() {
+	reg("("+modPathConst+"/internal/conf.Path).Clone", func(m *Machine, fr *frame, a []Value) Value {
+		c := new(Value)
+		*c = deepCopy(a[0], map[*Value]*Value{})
+		return c
+	})
+	reg("("+modPathConst+"/internal/conf.Conf).Clone", func(m *Machine, fr *frame, a []Value) Value {
+		c := new(Value)
+		*c = deepCopy(a[0], map[*Value]*Value{})
+		return c
+	})
+}
